@@ -367,6 +367,58 @@ pub fn run(tier: Tier) -> Run {
     let d_clos = tier.pick(7, 10);
     let a = xs::enumerate(&alpha, d_enum, &f);
     let b = xs::closure(&alpha, d_clos, 2_000_000, &f);
+    // ---- every ordered PAIR of opcodes (minimal shapes) inside an open block and at module level: what the loader does
+    //      with Y must not depend on which instruction X stands immediately in front of it (beyond X's class)
+    let pair_steps: Vec<Step> = {
+        let mins: Vec<Inst> = g
+            .insts
+            .iter()
+            .map(|gi| {
+                let mut i = universe::minimal(gi);
+                if i.rid.is_some() {
+                    i.rid = Some(900);
+                }
+                i
+            })
+            .collect();
+        let skip = |i: &Inst| placement_dont_care(&i.name());
+        (0..mins.len())
+            .into_par_iter()
+            .map(|xi| {
+                let mut viols = vec![];
+                let mut n = 0u64;
+                for prefix in [vec!["Function", "Label"], vec![]] {
+                    for y in &mins {
+                        let x = &mins[xi];
+                        if skip(x) || skip(y) {
+                            continue;
+                        }
+                        let mut h: Vec<Inst> = prefix.iter().enumerate().map(|(s, n)| rep_inst(n, s)).collect();
+                        h.push(x.clone());
+                        let mut y2 = y.clone();
+                        if y2.rid.is_some() {
+                            y2.rid = Some(901);
+                        }
+                        h.push(y2);
+                        n += 1;
+                        let st = run_seq(&h, false);
+                        for v in st.viols {
+                            if viols.len() < 3 {
+                                viols.push(v);
+                            }
+                        }
+                    }
+                }
+                Step { key: None, viols, outcomes: vec![format!("pairs:{}", n)] }
+            })
+            .collect()
+    };
+    let mut pair_count = 0u64;
+    for st in &pair_steps {
+        for o in &st.outcomes {
+            pair_count += o.trim_start_matches("pairs:").parse::<u64>().unwrap_or(0);
+        }
+    }
     // ---- every one of the 787 opcodes substituted for its class in each of the three loader states
     let prefixes: [Vec<&str>; 3] = [vec![], vec!["Function"], vec!["Function", "Label"]];
     let subs: Vec<Step> = g
@@ -409,6 +461,11 @@ pub fn run(tier: Tier) -> Run {
     run.add_all(b.viols.clone());
     run.merge_outcomes(&a.outcomes);
     run.merge_outcomes(&b.outcomes);
+    for st in pair_steps {
+        run.add_all(st.viols);
+    }
+    run.outcome("adjacent_opcode_pairs", pair_count);
+    let sub_n = sub_n + pair_count;
     run.set("states", json!(b.states));
     run.set("transitions", json!(a.transitions + b.transitions + sub_n));
     run.set("traces_validated_against_impl", json!(a.histories_replayed + b.histories_replayed + sub_n));
